@@ -7,7 +7,7 @@ import torch
 
 from vlib import policies
 from vlib.c14impl import pinned_matnet_randomness
-from vlib.taps import PolicyTap, logit_noise
+from vlib.taps import Float64, PolicyTap, logit_noise, td_to64
 
 
 def ref_logp(logits, mask, s):
@@ -29,6 +29,29 @@ def ref_logp(logits, mask, s):
         x = x.masked_fill(~mask.reshape(mask.shape[0], -1).bool(), float("-inf"))
     x = x / s.temperature
     return torch.log_softmax(x, -1)
+
+
+# policies whose round trip was verified to close to ~1e-15 in float64 on the unchanged tree (MDAM returns path-averaged
+# quantities, PolyNet binds its K vectors to row positions, PointerNetwork and MatNet build float32 tensors internally: no escalation for them, a mismatch stays a violation)
+F64_KINDS = {"am", "am_instnorm", "am_layernorm", "ham", "symnco"}
+
+
+def roundtrip_float64(pol, env, td0, decode_type, dk, seed, off, replicated, B):
+    """The whole round trip (rollout, then evaluation of the returned actions) once more in double precision. Returns the
+    largest per-step gap: ~1e-9 when a float32 discrepancy was conditioning (unscaled CVRPTW), O(gap) when it is logic."""
+    from rl4co.utils.ops import batchify
+
+    ev_kw = {k: v for k, v in dk.items() if k in ("temperature", "tanh_clipping", "top_k", "top_p")}
+    with torch.no_grad(), Float64(pol):
+        torch.manual_seed(seed + 1)
+        o = pol(td_to64(td0), env, phase="train", decode_type=decode_type, return_actions=True, return_sum_log_likelihood=False, **dk)
+        a, ll = o["actions"], o["log_likelihood"]
+        R = a.shape[0]
+        tde = batchify(td_to64(td0), R // B) if replicated else td_to64(td0)
+        ev = pol(tde, env, phase="train", actions=a.clone(), return_sum_log_likelihood=False, **ev_kw)["log_likelihood"]
+    if ev.shape != ll.shape:
+        return float("inf")
+    return float((ev[:, off:] - ll[:, off:]).abs().max()) if ev[:, off:].numel() else 0.0
 
 
 def case(ctx, case):
@@ -132,6 +155,13 @@ def case(ctx, case):
                 return
             ctx.count("c11_roundtrips_replicated", R)
             d = (ev["log_likelihood"][:, off:].double() - ll_steps[:, off:].double()).abs()
+            if bool((d > 1e-4 + noise).any()) and kind in F64_KINDS:
+                g64 = roundtrip_float64(pol, env, td0, decode_type, dk, seed, off, True, B)
+                ctx.count("c11_float64_escalations")
+                if g64 < 1e-7:
+                    ctx.ambiguous += 1
+                    ctx.count("c11_float32_conditioning_cases")
+                    d = d * 0
             if bool((d > 1e-4 + noise).any()):
                 r = int(d.max(1).values.argmax())
                 ctx.violation(dict(sig, q="roundtrip_logprob", replicated=True), f"row {r} (instance {r % B}): per-step log-probs of a replicated rollout differ by up to {float(d.max()):.4g} from those the policy assigns when the same actions are evaluated on that instance",
@@ -150,6 +180,13 @@ def case(ctx, case):
                 return
             ctx.count("c11_roundtrips", R)
             d = (ev["log_likelihood"].double() - ll_steps.double()).abs()
+            if ev["log_likelihood"].shape == ll_steps.shape and bool((d > 1e-4 + noise).any()) and kind in F64_KINDS:
+                g64 = roundtrip_float64(pol, env, td0, decode_type, dk, seed, 0, False, B)
+                ctx.count("c11_float64_escalations")
+                if g64 < 1e-7:
+                    ctx.ambiguous += 1
+                    ctx.count("c11_float32_conditioning_cases")
+                    d = d * 0
             if ev["log_likelihood"].shape != ll_steps.shape or bool((d > 1e-4 + noise).any()):
                 ctx.violation(dict(sig, q="roundtrip_logprob"), f"evaluate(actions) per-step log-probs differ from the rollout's by up to {float(d.max()) if d.numel() else 'shape'}", dict(B=B, n=n, decode=case["decode"]))
                 return
